@@ -360,6 +360,15 @@ func (s *Server) handlePostHalt(w http.ResponseWriter, r *http.Request) {
 		return
 	}
 
+	// Validate the request before the database is created on its behalf.
+	if lockID == 0 {
+		Error(w, r, fmt.Errorf("halt lock id required"), http.StatusBadRequest)
+		return
+	} else if !s.store.IsPrimary() {
+		Error(w, r, fmt.Errorf("cannot halt, node is not primary"), http.StatusServiceUnavailable)
+		return
+	}
+
 	// Ensure database exists before attempting a lock.
 	db, err := s.store.CreateDBIfNotExists(name)
 	if err != nil {
